@@ -4,18 +4,24 @@ package main
 // points gobl.Parse -> Envelop / Calculate -> Validate -> json.Marshal and reports whether the
 // library accepted it, with the serialised envelope it produced.
 //   c11 run x<json>   -> ok x<envelope json>  |  ( err parse|calc|validate|marshal )
+//   c11 runapi x<json> -> same results, for the document as a Go PROGRAM assembles it: members decoded one by one, without
+//                        the side effect of the type's UnmarshalJSON hook (bill.Invoice derives $regime there), then
+//                        gobl.Envelop -> Validate -> json.Marshal. Meant for documents written without $regime.
 //   c11 types         -> ( x<schema id> ... )   every registered schema id
+//   c11 regimes       -> ( ( x<code> x<alternative code> ... ) ... )   every registered regime with its alternative country codes
 //   c11 rematch x<pattern> x<text> -> 1 / 0   Go regexp (RE2) on a pattern text
 //   c11 leaf code|key x<text>      -> 1 / 0   the value type's own Validate()
 
 import (
 	"encoding/json"
+	"reflect"
 	"regexp"
 	"sort"
 
 	"github.com/invopop/gobl"
 	"github.com/invopop/gobl/cbc"
 	"github.com/invopop/gobl/schema"
+	"github.com/invopop/gobl/tax"
 )
 
 func init() {
@@ -46,6 +52,50 @@ func init() {
 				return []V{VErr("marshal")}
 			}
 			return []V{VS("ok"), VBytes(out)}
+		case "runapi":
+			obj, err := gobl.Parse(a[1].S)
+			if err != nil {
+				return []V{VErr("parse")}
+			}
+			var inst interface{}
+			switch o := obj.(type) {
+			case *gobl.Envelope:
+				if o.Document == nil {
+					return []V{VErr("parse")}
+				}
+				inst = o.Document.Instance()
+			case *schema.Object:
+				inst = o.Instance()
+			default:
+				inst = obj
+			}
+			if rv := reflect.ValueOf(inst); rv.Kind() == reflect.Ptr && !rv.IsNil() && rv.Elem().Kind() == reflect.Struct {
+				if f := rv.Elem().FieldByName("Regime"); f.IsValid() && f.CanSet() && f.Type() == reflect.TypeOf(tax.Regime{}) {
+					f.Set(reflect.Zero(f.Type()))
+				}
+			}
+			env, err := gobl.Envelop(inst)
+			if err != nil {
+				return []V{VErr("calc")}
+			}
+			if err := env.Validate(); err != nil {
+				return []V{VErr("validate")}
+			}
+			out, err := json.Marshal(env)
+			if err != nil {
+				return []V{VErr("marshal")}
+			}
+			return []V{VS("ok"), VBytes(out)}
+		case "regimes":
+			out := []V{}
+			for _, rd := range tax.AllRegimeDefs() {
+				row := []V{VS(rd.Country.String())}
+				for _, cc := range rd.AltCountryCodes {
+					row = append(row, VS(cc.String()))
+				}
+				out = append(out, V{Kind: 'l', L: row})
+			}
+			return []V{V{Kind: 'l', L: out}}
 		case "leaf":
 			// the type's own rule: cbc.Code(v).Validate() / cbc.Key(v).Validate()
 			switch a[1].Str() {
